@@ -70,6 +70,59 @@ class Dribble(io.RawIOBase):
         return n
 
 
+def fifo_opener(path, blob):
+    """RecordReader(<fifo path>) while another thread feeds the bytes once: a source that can be opened only once and not
+    rewound.  A reader that hangs (it opened the path a second time) is released by a watchdog and counts as refused."""
+    import threading
+
+    def opener():
+        from flow.record import RecordReader
+
+        if os.path.exists(path):
+            os.remove(path)
+        os.mkfifo(path)
+
+        def feed():
+            try:
+                with open(path, "wb") as f:
+                    f.write(blob)
+            except OSError:
+                pass
+
+        box = {}
+
+        def consume():
+            try:
+                rd = RecordReader(path)
+                box["recs"] = list(rd)
+                try:
+                    rd.close()
+                except Exception:
+                    pass
+            except BaseException as e:  # noqa
+                box["exc"] = e
+
+        ft, ct = threading.Thread(target=feed, daemon=True), threading.Thread(target=consume, daemon=True)
+        ft.start()
+        ct.start()
+        ct.join(8)
+        for flags in (os.O_WRONLY | os.O_NONBLOCK, os.O_RDONLY | os.O_NONBLOCK):     # release whoever still waits in open()
+            try:
+                os.close(os.open(path, flags))
+            except OSError:
+                pass
+        hung = ct.is_alive()
+        ct.join(4)
+        ft.join(4)
+        if hung or ct.is_alive():
+            raise TimeoutError("reader did not finish on a FIFO (opened the path more than once?)")
+        if "exc" in box:
+            raise box["exc"]
+        return iter(box["recs"])
+
+    return opener
+
+
 def read_all(opener):
     try:
         rd = opener()
@@ -322,7 +375,7 @@ def run(tier):
     thorough = tier == "thorough"
     sources_part(ctx, thorough)
     dispatch_part(ctx, thorough)
-    ctx.design("Detect", "MC_Detect.cfg", "full matrix: 5 codecs x 6 containers x 3 namings x 5 peek lengths", workers=4)
+    ctx.design("Detect", "MC_Detect.cfg", "full matrix: 5 codecs x 8 containers x 8 namings x 5 peek lengths", workers=4)
     ctx.sensitivity("Detect", "MC_Detect_shortpeek.cfg", "a first peek shorter than the codec magic breaks 'always recognised'", "AlwaysRecognised", workers=4)
     tmp = common.scratch("c11")
     # avro-mappable records (one descriptor), and general records for the stream container
@@ -448,6 +501,27 @@ def run(tier):
                 namings.append(("fileobj_offset", 19, at_offset("rawfile")))
                 for k in ((1, 2, 3, 4) if thorough or seq == 0 else (1, 3)):
                     namings.append(("fileobj", k, (lambda k=k: RecordReader(fileobj=Dribble(blob, k)))))
+                # a path whose extension names the container only, the bytes being compressed all the same
+                if container in ("stream", "avro") and codec != "none":
+                    hidden = os.path.join(tmp, "hidden" + {"stream": ".records", "avro": ".avro"}[container])
+                    with open(hidden, "wb") as fh:
+                        fh.write(blob)
+                    namings.append(("ext_hidden", 19, lambda: RecordReader(hidden)))
+                # a path that cannot be opened twice or rewound: a FIFO with a neutral name, fed by another thread
+                if seq == 0 and container in ("stream", "garbage", "cutcodec"):
+                    namings.append(("neutral", 19, fifo_opener(os.path.join(tmp, "pipe_noext"), blob)))
+                # the same records in a zstandard frame that declares a LARGE window (streaming compression at level 22)
+                if codec == "zstd" and container == "stream" and written:
+                    import zstandard
+
+                    co = zstandard.ZstdCompressor(level=22).compressobj()
+                    big = co.compress(plain) + co.flush()
+                    bigp, bign = os.path.join(tmp, "big.records.zst"), os.path.join(tmp, "bigneutral")
+                    for pth in (bigp, bign):
+                        with open(pth, "wb") as fh:
+                            fh.write(big)
+                    namings += [("ext", 19, lambda: RecordReader(bigp)), ("neutral", 19, lambda: RecordReader(bign)), ("fileobj", 19, lambda: RecordReader(fileobj=io.BytesIO(big))),
+                                ("class_fileobj", 19, lambda: __import__("flow.record.adapter.stream", fromlist=["StreamReader"]).StreamReader(io.BytesIO(big)))]
                 for naming, peeklen, opener in namings:
                     how, got, exc = read_all(opener)
                     outcome = how
